@@ -12,7 +12,9 @@ from dippy.core.bash import bash_quote
 
 COMMANDS = ["xargs"]
 
-# Flags that take an argument (skip these when finding the inner command)
+# Flags that take a separate argument (skip these when finding the inner command).
+# -l, -i, --eof, --replace and --max-lines only take an attached/=-joined
+# optional argument, so the next word is already the command.
 FLAGS_WITH_ARG = frozenset(
     {
         "-a",
@@ -21,13 +23,9 @@ FLAGS_WITH_ARG = frozenset(
         "--delimiter",
         "-E",
         "-e",
-        "--eof",
         "-I",
         "-J",
-        "--replace",
         "-L",
-        "-l",
-        "--max-lines",
         "-n",
         "--max-args",
         "-P",
